@@ -126,11 +126,15 @@ AsSerialized(ks) ==
           IF ks.keys[i].nil THEN [ks.keys[i] EXCEPT !.nil = FALSE] ELSE ks.keys[i]]]
 
 \* every way the library turns outside data into a handle
-ProtoEntries  == {"proto-nosecrets", "proto-cleartext"}          \* take a *Keyset
+\* take a *Keyset message: NewHandleWithNoSecrets, insecurecleartextkeyset.KeysetHandle, and the readers
+\* fed by a keyset.MemReaderWriter holding the message
+ProtoEntries  == {"proto-nosecrets", "proto-cleartext", "mem-clear", "mem-nosecrets"}
+\* take bytes / text (binary or JSON reader; "enc*": an EncryptedKeyset decrypted with an AEAD, with associated
+\* data, with a context AEAD; "mem-enc": an EncryptedKeyset MESSAGE in a MemReaderWriter)
 ReaderEntries == {"clear-bin", "clear-json", "nosecrets-bin", "nosecrets-json",
-                  "enc-bin", "enc-json", "encad-bin", "encad-json", "encctx-bin", "encctx-json"}
+                  "enc-bin", "enc-json", "encad-bin", "encad-json", "encctx-bin", "encctx-json", "mem-enc"}
 Entries == ProtoEntries \cup ReaderEntries
-NoSecretEntries == {"proto-nosecrets", "nosecrets-bin", "nosecrets-json"}
+NoSecretEntries == {"proto-nosecrets", "nosecrets-bin", "nosecrets-json", "mem-nosecrets"}
 
 Seen(entry, ks) == IF entry \in ProtoEntries THEN ks ELSE AsSerialized(ks)
 
